@@ -53,7 +53,7 @@ class Pool:
         return '[' + ';'.join(f'({self.cat(k)},{glist(v, self.cat)})' for k, v in tbl.items()) + ']'
 
     def preamble(self):
-        return gram_corr.PRE + '\n'.join(self.defs) + '\n'
+        return gram_corr.pre('GenJa') + '\n'.join(self.defs) + '\n'
 
 # =================================================================================================
 #  the oracle: the schemata of the property, on Category values
@@ -434,7 +434,7 @@ def instantiate(rng, sym, modifier=False, bar=0.06):
 def run(ctx):
     rng = ctx.rng
     quick = ctx.quick
-    ctx.build(['P_C04.vo', 'P_C14_ja.vo'], gens=('tables', 'grammar', 'jaroots'))
+    ctx.build(['P_C04.vo', 'P_C14_ja.vo'], gens=('tables', 'grammar_ja', 'jaroots'))      # ja.py only
     ctx.theorems('P_C04')
     ctx.theorems('P_C14_ja')
 
